@@ -1,3 +1,5 @@
+pub mod c03;
+pub mod c04;
 pub mod c09;
 pub mod c10;
 
@@ -22,7 +24,7 @@ pub fn run_regressions(id: &str, ctx: &mut Ctx) {
     let mut n = 0;
     for f in files {
         let name = f.file_name().and_then(|n| n.to_str()).unwrap_or("").to_string();
-        if !name.starts_with("regress_") || !name.ends_with(".json") {
+        if !(name.starts_with("regress_") || name.starts_with("known_")) || !name.ends_with(".json") {
             continue;
         }
         if let Ok(s) = std::fs::read_to_string(&f) {
@@ -40,6 +42,8 @@ pub fn run_regressions(id: &str, ctx: &mut Ctx) {
 pub fn run(id: &str, ctx: &mut Ctx) -> bool {
     run_regressions(id, ctx);
     match id {
+        "C03" => c03::run(ctx),
+        "C04" => c04::run(ctx),
         "C09" => c09::run(ctx),
         "C10" => c10::run(ctx),
         _ => return false,
@@ -74,6 +78,8 @@ pub fn replay(id: &str, ctx: &mut Ctx, file: &str) -> bool {
 
 pub fn replay_value(id: &str, ctx: &mut Ctx, r: &serde_json::Value) -> bool {
     match id {
+        "C03" => c03::replay(ctx, r),
+        "C04" => c04::replay(ctx, r),
         "C10" => c10::replay(ctx, r),
         _ => {
             let _ = (ctx, r);
